@@ -2286,6 +2286,15 @@ class Interp:
             if isinstance(subj, str):
                 import re as _re
                 return _re.sub(pat, repl, subj)
+            # a pattern that needs a literal character which the subject cannot contain matches nowhere (exact):
+            # zero-width assertions (\b) and grouping parentheses aside, the pattern is a plain literal
+            import re as _re3
+            lit = _re3.sub(r"\\b|[()]", "", pat) if isinstance(pat, str) else None
+            if lit and _re3.fullmatch(r"(\\[^a-zA-Z0-9]|[^\\.^$*+?{}\[\]|()])+", lit):
+                needed = set(_re3.sub(r"\\(.)", r"\1", lit))
+                alpha = self.alphabet(strterm(subj))
+                if alpha is not None and any(c not in alpha for c in needed):
+                    return subj
             chars = _single_char_class(pat)
             if chars is None or any(c in repl for c in chars):
                 raise Unsupported("re.sub pattern other than a single character class")
@@ -2315,6 +2324,10 @@ class Interp:
             return SStr(tail)
         if name == "copy.deepcopy":
             return self.b_deepcopy(args[0])
+        if name in ("pprint.pprint", "pprint.pp"):
+            # console output is an observable effect: a ghost event (the reference records it with ghost_call("print", x))
+            self.__dict__.setdefault("ghost", []).append(["print"] + list(args))
+            return None
         if name == "json.dumps":
             return Opaque("json.dumps", args)
         raise Unsupported("external call %s" % name)
